@@ -704,3 +704,60 @@ def drop_edges(prog):
                         out.update(v)
         return out
     return edges
+
+
+# ---------------------------------------------------------------------------
+# tokio::select! loops (R-STICKY)
+
+
+def select_sites(prog, co):
+    """All `tokio::select!` sites of body `co`: list of dict(head=bb of the poll_fn call, switch=bb of the
+    match on the Out enum, arms={branch index: target bb}, disabled=target bb or None,
+    polled={branch index: resolved future (coroutine path / type)})."""
+    o = Origins(co)
+    out = []
+    for i, bl in enumerate(co.blocks):
+        if bl.get("cleanup") or bl["t"]["k"] != "switch":
+            continue
+        t = bl["t"]
+        pl = op_place(t["discr"])
+        if pl is None or not isinstance(pl, int):
+            continue
+        ds = [d for d in co.defs().get(pl, []) if d[0] == "assign" and d[3]["k"] == "discr"]
+        if len(ds) != 1 or not str(ds[0][3].get("enum", "")).endswith("__tokio_select_util::Out"):
+            continue
+        variants = {d: n for n, d in ds[0][3]["variants"]}
+        subj = o.of_place(ds[0][3]["pl"])
+        pfs = [x for x in walk(subj) if x[0] == "call" and name_matches(x[1], "core::future::poll_fn::poll_fn")]
+        if len(pfs) != 1:
+            raise Undecidable(f"{co.path}: select! output at bb{i} does not come from exactly one poll_fn")
+        head = pfs[0][3]
+        arms = {}
+        disabled = None
+        for v, tgt in t["arms"]:
+            n = variants.get(v, str(v))
+            if n == "Disabled":
+                disabled = tgt
+            elif n.startswith("_"):
+                arms[int(n[1:])] = tgt
+        # the polling closure
+        cl = strip_identity(pfs[0][2][0])
+        polled = {}
+        if cl[0] == "agg" and cl[1] == "closure":
+            kb = prog.body(cl[2])
+            if kb is not None:
+                ko = Origins(kb)
+                for x in kb.calls():
+                    if name_matches(x.fn, "future::future::Future::poll") and not kb.is_cleanup(x.bb):
+                        a0 = ko.of_operand(x.args[0])
+                        idx = [v for v in walk(a0) if v[0] == "field" and v[2].isdigit() and mentions_upvar(v, "futures")]
+                        if idx:
+                            polled[int(idx[0][2])] = x.res or ("type:" + str(x.self_ty))
+        out.append({"head": head, "switch": i, "arms": arms, "disabled": disabled, "polled": polled})
+    return out
+
+
+def arm_words(co, site, idx, call_sym, edge_extra=None, stmt_sym=None):
+    """Words of select arm `idx` from its entry to either the loop head (ends '<stop>' = continues the loop)
+    or a function exit."""
+    return seq_words(co, call_sym, stmt_sym, edge_extra, strict=False, start=site["arms"][idx], stops=[site["head"]])
